@@ -136,8 +136,11 @@ pp_twprge_no_ewt = re.compile(
     r"""
     ((?<=[,;:])|(?<=\b))    # Word boundary or comma (or similar) lookbehind.
     
-    # The word or symbol for "Township" (optional).
-    (
+    # The word or symbol for "Township" (optional), with the deadspace
+    # between it and the twpnum. (Without the word there is no such
+    # deadspace: whatever punctuation or line break precedes the number
+    # belongs to the surrounding text and must stay there.)
+    ((
     T|
     Tw\.?|
     Twp\.?|
@@ -147,9 +150,8 @@ pp_twprge_no_ewt = re.compile(
     To{1,2}w{1,2}s{1,2}n{1,2}h{1,2}i{0,2}p{0,2}|
     To{1,2}w{1,2}n{1,2}h{1,2}s{1,2}i{0,2}p{0,2}|
     To{1,2}w{1,2}n{1,2}s{1,2}i{0,2}h{1,2}p{0,2}
-    )?
-    
-    [\.\-–—,\s]*            # Deadspace between "Township" and twpnum.
+    )
+    [\.\-–—,\s]*)?
     (?P<twpnum>\d{1,3})     # twpnum
     [\.\-–—,\s]*            # Deadspace between twpnum and n/s
     (?P<ns>N[orth]{0,5}|S[outh]{0,5})   # n/s (required)
